@@ -30,6 +30,7 @@ def run_check(prop, tier, scratch, repo=None):
     if repo is not None:
         env["VERIF_REPO"] = str(repo)
     env["VERIF_EVIDENCE_DIR"] = str(scratch / "evidence")
+    env["VERIF_GATE_CACHE"] = "1"
     env["VERIF_REPLAY_DIR"] = str(scratch / "replays" / prop)
     try:
         r = subprocess.run([str(HERE / "check"), prop, "--tier", tier], stdout=subprocess.PIPE,
